@@ -25,6 +25,8 @@ func init() {
 			"first evaluated); a node seen for the first time requests no re-sync.",
 		Run: runC09,
 		Mutants: []Mutant{
+			{Name: "pool-remembered-per-service", File: "speaker/main.go",
+				Old: "\tpoolName := poolFor(c.config.Pools, lbIPs)\n", New: "\tpoolName := svc.Annotations[\"metallb.io/ip-allocated-from-pool\"]\n\tif poolName == \"\" {\n\t\tpoolName = poolFor(c.config.Pools, lbIPs)\n\t}\n", Expect: "POOL-CURRENT"},
 			{Name: "orphan-refusal-not-retried", File: "speaker/main.go",
 				Old: "\"msg\", \"new configuration rejected\")\n\t\t\treturn controllers.SyncStateError", New: "\"msg\", \"new configuration rejected\")\n\t\t\treturn controllers.SyncStateErrorNoRetry", Expect: "REFUSAL-RETRIED"},
 			{Name: "membership-event-dropped-for-updates", File: "internal/speakerlist/speakerlist.go",
@@ -69,6 +71,9 @@ func init() {
 }
 
 func runC09(p *chk.Prog, r *chk.Report) {
+	c09PoolCurrent(p, r)
+	// a configuration or node change is applied by a pass over every Service (PASS-COMPLETE, shared with C06)
+	passCompleteRule(p, r)
 	// a Set always replaces the pending set (PENDING, shared with C17)
 	c17Pending(p, r)
 	handlerReadonlyRule(p, r)
@@ -820,4 +825,27 @@ func storesRootedAt(f *chk.Fn, o types.Object) []ast.Node {
 		return true
 	})
 	return out
+}
+
+// c09PoolCurrent (shared with C05, C04): the pool a Service is announced for - its advertisements, its node selectors -
+// is the pool that owns the Service's current addresses under the current configuration, looked up afresh on every
+// sync. A remembered pool survives a configuration that moved the addresses to another pool.
+func c09PoolCurrent(p *chk.Prog, r *chk.Report) {
+	x := r.Rule("POOL-CURRENT", "B path", "in speaker (*controller).SetBalancer the pool handed to handleService is c.config.Pools.ByName[poolFor(c.config.Pools, lbIPs)] (or the pool poolFor itself returns) for the very addresses handed with it: every definition of the name reaches it from that call, none from remembered state", 1)
+	f := need(x, p, "speaker", "controller", "SetBalancer")
+	if f == nil {
+		return
+	}
+	g := f.Graph()
+	n := 0
+	for _, hs := range g.FindPat("RECV.handleService(L, N, IPS, S, POOL, ETC)", chk.H("RECV", isRecv(f))) {
+		n++
+		call := hs.Node.(*ast.CallExpr)
+		ips, pool := call.Args[2], call.Args[4]
+		sameIPs := func(e ast.Expr) bool { return f.ObjOf(ips) != nil && f.ObjOf(e) == f.ObjOf(ips) }
+		fromPoolFor := definedBy(g, "poolFor(RECV.config.Pools, IPS)", chk.H("IPS", sameIPs))
+		ok := fromPoolFor(pool) || definedBy(g, "RECV.config.Pools.ByName[N]", chk.H("N", fromPoolFor))(pool)
+		x.Check("SetBalancer:pool-of-the-current-addresses", hs.Pos(), ok, "", "the pool the Service is announced for does not come, on every path, from poolFor(c.config.Pools, <the addresses announced>): a pool remembered from an earlier sync keeps its advertisements and node selectors in force after the configuration moved the addresses elsewhere")
+	}
+	x.Check("SetBalancer:handleService", f.Pos(), n >= 1, "", "no handleService call found")
 }
